@@ -354,7 +354,15 @@ func checkCollectorTypestate(r *Reporter, p *Prog) {
 			found := false
 			ast.Inspect(fd.Body, func(n ast.Node) bool {
 				if rs, ok := n.(*ast.ReturnStmt); ok && len(rs.Results) >= 1 {
-					if c, ok := ast.Unparen(rs.Results[0]).(*ast.CallExpr); ok && creates(c) {
+					res := ast.Unparen(rs.Results[0])
+					if c, ok := res.(*ast.CallExpr); ok && creates(c) {
+						found = true
+					}
+					// the constructor itself (function or method, whatever its name): returns a fresh collector
+					if u, ok := res.(*ast.UnaryExpr); ok && u.Op == token.AND {
+						res = ast.Unparen(u.X)
+					}
+					if cl, ok := res.(*ast.CompositeLit); ok && shortTypeName(typeName(info.TypeOf(cl))) == "BatchCollector" {
 						found = true
 					}
 				}
@@ -363,11 +371,13 @@ func checkCollectorTypestate(r *Reporter, p *Prog) {
 			return found
 		}
 		creates = func(c *ast.CallExpr) bool {
-			if rawKey(c.Fun) == "newBatchCollector" {
-				return true
+			if t := info.TypeOf(c); t == nil || shortTypeName(typeName(t)) != "BatchCollector" {
+				return false
 			}
 			if fn := staticCallee(info, c); fn != nil {
-				return bodyCreates(p.decls().byFunc[fn.Origin()], 1)
+				if hd := p.decls().byFunc[fn.Origin()]; hd != nil && p.decls().infoOf[hd] == info {
+					return bodyCreates(hd, 1)
+				}
 			}
 			return false
 		}
